@@ -329,6 +329,69 @@ func c15Colliding(r *rand.Rand, canonical bool) []string {
 	return names
 }
 
+// c15UUID is a random uuid in the canonical lower-case dashed spelling (36 characters).
+func c15UUID(r *rand.Rand) string {
+	const hexd = "0123456789abcdef"
+	b := make([]byte, 36)
+	for i := range b {
+		if i == 8 || i == 13 || i == 18 || i == 23 {
+			b[i] = '-'
+		} else {
+			b[i] = hexd[r.Intn(16)]
+		}
+	}
+	return string(b)
+}
+
+// c15Twin changes the characters of s from position `from` on (hex digits stay hex digits, letters
+// stay letters or digits), so that s and its twin agree exactly on the first `from` bytes.
+func c15Twin(r *rand.Rand, s string, from int) string {
+	const hexd = "0123456789abcdef"
+	b := []byte(s)
+	for {
+		for i := from; i < len(b); i++ {
+			if b[i] != '-' {
+				b[i] = hexd[r.Intn(16)]
+			}
+		}
+		if string(b) != s {
+			return string(b)
+		}
+	}
+}
+
+// c15LongPair is a pair of ordinary segments of n >= 33 characters (legal only after governance
+// raised max_segment_length) that agree on their first `common` bytes and differ afterwards.
+func c15LongPair(r *rand.Rand, n, common int) (string, string) {
+	a := c15Seg(r, "abcdef0123456789", n, n)
+	return a, c15Twin(r, a, common)
+}
+
+// c15LongTree is a parent-closed universe with long segments in pairs that share their first 32
+// bytes: two uuid-shaped children (36 characters, exempt from the maximum segment length), two
+// ordinary children of 33-64 characters (valid once max_segment_length is 64), one 32-character
+// child, and sub-names under them.
+func c15LongTree(r *rand.Rand) []string {
+	const alpha = "abcde12"
+	root, root2 := c15Seg(r, alpha, 2, 4), "r"+c15Seg(r, alpha, 2, 3)
+	for root2 == root {
+		root2 = "r" + c15Seg(r, alpha, 2, 3)
+	}
+	u1 := c15UUID(r)
+	u2 := c15Twin(r, u1, 32)
+	ln, cm := 33+r.Intn(32), 32
+	if ln > 33 && r.Intn(2) == 0 {
+		cm = 33
+	}
+	l1, l2 := c15LongPair(r, ln, cm)
+	m1, m2 := c15LongPair(r, 64, 40+r.Intn(20))
+	h32 := c15Seg(r, "abcdef0123456789", 32, 32)
+	return []string{root, root2,
+		u1 + "." + root, u2 + "." + root, l1 + "." + root, l2 + "." + root, h32 + "." + root,
+		m1 + "." + root2, m2 + "." + root2, u1 + "." + root2,
+		"x1." + u1 + "." + root, "x1." + u2 + "." + root, "zz." + l1 + "." + root, "zz." + l2 + "." + root}
+}
+
 func c15Collisions(names []string) [][2]string {
 	var out [][2]string
 	for i := range names {
@@ -374,7 +437,7 @@ func c15Raw(r *rand.Rand, n string) string {
 	return n
 }
 
-var c15ParamChoices = []c15Params{{2, 32, 16}, {2, 3, 2}, {3, 32, 16}, {2, 32, 2}, {1, 4, 3}, {2, 32, 16}, {2, 4, 3}, {5, 3, 16}, {2, 32, 0}, {2, 32, 16}}
+var c15ParamChoices = []c15Params{{2, 32, 16}, {2, 3, 2}, {3, 32, 16}, {2, 32, 2}, {1, 4, 3}, {2, 32, 16}, {2, 4, 3}, {5, 3, 16}, {2, 32, 0}, {2, 32, 16}, {2, 64, 16}, {2, 64, 16}}
 
 type c15Counters struct {
 	gov, dotted, dottedImpliedExists, dottedImpliedRestrictedForeign, multiLevelParent int64
@@ -742,8 +805,26 @@ func TestC15(t *testing.T) {
 		np.MinSegmentLength, np.MaxSegmentLength, np.MaxNameLevels, np.AllowUnrestrictedNames = p.min, p.max, p.levels, allow0
 		app.NameKeeper.SetParams(ctx, np)
 		colliding := h%8 == 3
+		long := h%8 == 5
 		var names []string
-		if colliding {
+		if long {
+			// long segments: start under max_segment_length 64 (governance raised it), except every
+			// other such history, which starts under the defaults (only the uuid-shaped and the
+			// 32-character children are valid until a MsgUpdateParams raises the limit)
+			p = defP
+			if h%16 == 5 {
+				p = c15Params{2, 64, 16}
+			}
+			np.MinSegmentLength, np.MaxSegmentLength, np.MaxNameLevels = p.min, p.max, p.levels
+			app.NameKeeper.SetParams(ctx, np)
+			for {
+				names = c15LongTree(r)
+				if !clashesWithGenesis(names) {
+					break
+				}
+			}
+			w.Count("histories_with_long_segment_universe")
+		} else if colliding {
 			names = c15Colliding(r, h == 3)
 			if clashesWithGenesis(names) {
 				t.Fatalf("colliding universe clashes with a genesis name")
@@ -777,6 +858,26 @@ func TestC15(t *testing.T) {
 				{kind: "root", signer: 0, name: p2, owner: 3, restr: true},
 				{kind: "bind", signer: 3, name: c2, parent: p2, owner: 3, restr: false},
 				{kind: "modify", signer: 1, name: names[3], owner: 2, restr: false},
+			}
+		} else if long {
+			// make the twins meet: root (unrestricted), the first uuid child bound by user 2
+			// (restricted), its twin (same first 32 characters) by user 3, then the long ordinary
+			// twins, and a sub-name under each uuid child by its owner
+			c1, p1 := c15Parent(names[2])
+			c2, _ := c15Parent(names[3])
+			c3, _ := c15Parent(names[4])
+			c4, _ := c15Parent(names[5])
+			script = []c15Op{
+				{kind: "root", signer: 0, name: p1, owner: 1, restr: false},
+				{kind: "bind", signer: 2, name: c1, parent: p1, owner: 2, restr: true},
+				{kind: "bind", signer: 3, name: c2, parent: p1, owner: 3, restr: true},
+				{kind: "params", signer: 0, p: c15Params{2, 64, 16}, allow: allow0},
+				{kind: "bind", signer: 4, name: c3, parent: p1, owner: 4, restr: false},
+				{kind: "bind", signer: 5, name: c4, parent: p1, owner: 5, restr: false},
+				{kind: "bind", signer: 2, name: "x1", parent: names[2], owner: 2, restr: false},
+				{kind: "bind", signer: 3, name: "x1", parent: names[3], owner: 3, restr: false},
+				{kind: "modify", signer: 3, name: names[3], owner: 1, restr: false},
+				{kind: "delete", signer: 5, name: names[5]},
 			}
 		} else if h%6 == 1 {
 			// a fresh chain: the first thing that happens is a genesis import (parents before
@@ -816,6 +917,32 @@ func TestC15(t *testing.T) {
 				w15.dotted += 2
 				w15.dottedImpliedExists += 2
 				w15.dottedImpliedRestrictedForeign++
+			}
+		}
+		if script == nil && h%6 == 4 {
+			// an orphan in the way of a root creation (the seeded shape of C15-G): P is created, a
+			// stranger binds C = c.P, P's owner deletes P (sub-names are not looked at), governance
+			// then creates the root name d.c.P, which lies BELOW the surviving C: the missing level P
+			// is created again, the existing level C must be left alone
+			var deep string
+			for _, n := range names {
+				if _, _, ok := c15Split2(n); ok {
+					deep = n
+					break
+				}
+			}
+			if deep != "" {
+				_, cName := c15Parent(deep)
+				c, pName := c15Parent(cName)
+				script = []c15Op{
+					{kind: "params", signer: 0, p: defP, allow: allow0},
+					{kind: "root", signer: 0, name: pName, owner: 1, restr: false},
+					{kind: "bind", signer: 2, name: c, parent: pName, owner: 2, restr: true},
+					{kind: "delete", signer: 1, name: pName},
+					{kind: "root", signer: 0, name: deep, owner: 3, restr: true},
+					{kind: "modify", signer: 2, name: cName, owner: 2, restr: false},
+				}
+				w.Count("histories_with_root_creation_through_an_orphan")
 			}
 		}
 		for s := 0; s < steps; s++ {
@@ -942,7 +1069,9 @@ func TestC15(t *testing.T) {
 			_ = app.NameKeeper.IterateRecords(rctx, nametypes.NameKeyPrefix, func(nametypes.NameRecord) error { left++; return nil })
 			_ = app.NameKeeper.IterateRecords(rctx, nametypes.AddressKeyPrefix, func(nametypes.NameRecord) error { left++; return nil })
 			if left != 0 {
-				t.Errorf("history %d: %d entries left after deleting every exported record", h, left)
+				// stale entries (only possible when the index is already out of step, which the
+				// lookup checks of the history report): counted, the import then runs on top of them
+				w.CountN("round_trip_entries_left_after_deleting_every_record", int64(left))
 			}
 			ierr := try(func() error {
 				app.NameKeeper.InitGenesis(rctx, *gs)
@@ -1079,6 +1208,53 @@ func TestC15(t *testing.T) {
 				w.Nontrivial("p/" + n1 + "/" + n2)
 			}
 		}
+		// the same under max_segment_length 64 (governance raised the limit)
+		p64 := c15Params{2, 64, 16}
+		ctx64, _ := baseCtx.CacheContext()
+		{
+			np := kp
+			np.MaxSegmentLength = 64
+			app.NameKeeper.SetParams(ctx64, np)
+		}
+		isValid64 := func(n string) bool {
+			nn, err := app.NameKeeper.Normalize(ctx64, n)
+			return err == nil && nn == n
+		}
+		emit64 := func(n1, n2 string) {
+			same := c15Key(n1) != nil && bytes.Equal(c15Key(n1), c15Key(n2))
+			w.Add(fmt.Sprintf("CPair %s %s %s %s %s %s", p64.coq(), coqStr(n1), coqStr(n2), coqBool(isValid64(n1)), coqBool(isValid64(n2)), coqBool(same)),
+				desc{"kind": "pair", "n1": n1, "n2": n2, "same_key": same, "max_segment_length": 64})
+			w.Count("pairs_with_long_segments")
+			if same {
+				w.Nontrivial("p/" + n1 + "/" + n2)
+			}
+		}
+		// ---------- 2a'. long segments: twins that agree on the first 31 / 32 / 33 / ... bytes ----------
+		for i := 0; i < scale(12, 400); i++ {
+			u := c15UUID(r)
+			par := c15Seg(r, "abcde12", 2, 4)
+			// uuid-shaped segments are exempt from the maximum length: valid under the defaults
+			emit(u+"."+par, c15Twin(r, u, 32)+"."+par)
+			emit(u+"."+par, c15Twin(r, u, 35)+"."+par)
+			emit(u+"."+par, c15Twin(r, u, 24+r.Intn(8))+"."+par)
+			emit("x1."+u+"."+par, "x1."+c15Twin(r, u, 32)+"."+par)
+			emit(u, c15Twin(r, u, 32))
+			emit("urn:uuid:"+u+"."+par, "urn:uuid:"+c15Twin(r, u, 32)+"."+par)
+			emit("{"+u+"}."+par, "{"+c15Twin(r, u, 32)+"}."+par)
+			emit(u+"."+u, c15Twin(r, u, 33)+"."+c15Twin(r, u, 34))
+			// ordinary segments of 33-64 characters: valid once max_segment_length is 64
+			for _, n := range []int{33, 34, 40, 63, 64} {
+				a, b := c15LongPair(r, n, 32)
+				emit64(a+"."+par, b+"."+par)
+				a, b = c15LongPair(r, n, 32+r.Intn(n-32))
+				emit64(par+"."+a, par+"."+b)
+				a, b = c15LongPair(r, n, 31)
+				emit64(a+"."+par, b+"."+par)
+			}
+			a, b := c15LongPair(r, 64, 32)
+			emit64(a+"."+u+"."+par, b+"."+u+"."+par)
+			emit64(a+"."+u, a+"."+c15Twin(r, u, 32))
+		}
 		// every collision whose shape is NOT "same reversed concatenation" is always emitted; of
 		// the others (the known finding) the canonical witness and a sample
 		emit("aa.bbcc", "ccaa.bb")
@@ -1212,6 +1388,88 @@ func TestC15(t *testing.T) {
 				b[i] = alpha4[(strings.IndexByte(alpha4, b[i])+1)%4]
 				emit(n, string(b))
 			}
+		}
+	}
+
+	// ---------- 2c. enumeration over a pool with LONG segments (twins sharing their first 32 bytes) ----------
+	{
+		ctx64, _ := baseCtx.CacheContext()
+		np := kp
+		np.MaxSegmentLength = 64
+		app.NameKeeper.SetParams(ctx64, np)
+		p64 := c15Params{2, 64, 16}
+		u := c15UUID(r)
+		l1, l2 := c15LongPair(r, 33, 32)
+		m1, m2 := c15LongPair(r, 64, 48)
+		k1, k2 := c15LongPair(r, 40, 31)
+		h32 := c15Seg(r, "abcdef0123456789", 32, 32)
+		pool := []string{"ab", "b1", "ab1", u, c15Twin(r, u, 32), c15Twin(r, u, 35), c15UUID(r), l1, l2, m1, m2, k1, k2, h32, h32 + "0", h32[:31], "urn:uuid:" + u, "urn:uuid:" + c15Twin(r, u, 32)}
+		var all []string
+		var build func(cur string, levels int)
+		build = func(cur string, levels int) {
+			if cur != "" {
+				all = append(all, cur)
+			}
+			if levels == scale(3, 4) {
+				return
+			}
+			for _, sg := range pool {
+				n := sg
+				if cur != "" {
+					n = sg + "." + cur
+				}
+				build(n, levels+1)
+			}
+		}
+		build("", 0)
+		byKey := map[string]string{}
+		byPre := map[string]string{}
+		var mismatches int64
+		var mism [][2]string
+		for _, n := range all {
+			k, pre := string(c15Key(n)), c15Revcat(n)
+			fk, okK := byKey[k]
+			fp, okP := byPre[pre]
+			if !okK {
+				byKey[k], fk = n, n
+			}
+			if !okP {
+				byPre[pre], fp = n, n
+			}
+			if fk != fp {
+				mismatches++
+				if len(mism) < 30 {
+					mism = append(mism, [2]string{n, fk}, [2]string{n, fp})
+				}
+			}
+		}
+		w.CountN("enum_long_names", int64(len(all)))
+		w.CountN("enum_long_classes_by_real_key", int64(len(byKey)))
+		w.CountN("enum_long_classes_by_reversed_concatenation", int64(len(byPre)))
+		w.CountN("enum_long_partition_mismatches", mismatches)
+		w.Add(fmt.Sprintf("CEnum %d%%N %d%%N %d%%N %d%%N", len(all), len(byKey), len(byPre), mismatches),
+			map[string]any{"kind": "enumeration", "pool": pool, "names": len(all), "classes_by_key": len(byKey), "classes_by_preimage": len(byPre), "mismatches": mismatches})
+		isValid64 := func(n string) bool {
+			nn, err := app.NameKeeper.Normalize(ctx64, n)
+			return err == nil && nn == n
+		}
+		emit64 := func(n1, n2 string) {
+			if n1 == n2 {
+				return
+			}
+			same := c15Key(n1) != nil && bytes.Equal(c15Key(n1), c15Key(n2))
+			w.Add(fmt.Sprintf("CPair %s %s %s %s %s %s", p64.coq(), coqStr(n1), coqStr(n2), coqBool(isValid64(n1)), coqBool(isValid64(n2)), coqBool(same)),
+				map[string]any{"kind": "pair", "n1": n1, "n2": n2, "same_key": same, "max_segment_length": 64})
+			w.Count("pairs_with_long_segments")
+		}
+		for _, mp := range mism {
+			emit64(mp[0], mp[1])
+		}
+		// a sample of names against their class representative and against a twin name
+		for i := 0; i < scale(60, 1500); i++ {
+			n := all[r.Intn(len(all))]
+			emit64(n, byKey[string(c15Key(n))])
+			emit64(n, all[r.Intn(len(all))])
 		}
 	}
 
